@@ -252,6 +252,23 @@ pub fn run_c02(ctx: &mut Ctx, replay: Option<&[String]>) {
         // non-trivial: the matrix has an information part (k >= 1) or the build fails
         ctx.emit(&input, &o, k >= 1 || o == "err", &[fam, tag2]);
     }
+    // staircase codes with more than 2^16 message columns (checks that join columns below and above 65536): the encoder must not pass
+    // column indices through a 16-bit type.  Judged on the implementation's own output (systematic prefix, every parity check), the
+    // list-based model is not run on them.
+    for _ in 0..ctx.scale(3, 30) {
+        let r = rng.range(2, 6);
+        let k = 65536 + rng.range(10, 5000);
+        let mut h = SparseMatrix::new(r, k + r);
+        for j in 0..r {
+            for _ in 0..rng.range(1, 4) { h.insert(j, rng.below(65536)); }
+            for _ in 0..rng.range(1, 4) { h.insert(j, 65536 + rng.below(k - 65536)); }
+            if rng.chance(1, 2) { h.insert(j, 65536); }
+            h.insert(j, k + j);
+            if j > 0 { h.insert(j, k + j - 1); }
+        }
+        let o = crate::c06::encoder_accepts(&h, &mut rng, 4);
+        ctx.emit(&format!("c02 bigstair {} {}", r, k), &o, true, &["staircase-more-than-65536-message-columns"]);
+    }
 }
 
 pub fn sys_res(h: &SparseMatrix) -> String {
@@ -304,6 +321,25 @@ pub fn run_c09(ctx: &mut Ctx, replay: Option<&[String]>) {
             for _ in 0..rng.range(2, 6) { h.insert(i, rng.below(n)); }
             h.insert(i, 65536.min(n - 1) - i);
             if n > 65540 { h.insert(i, 65537 + i); }
+        }
+        let o = sys_res(&h);
+        ctx.emit(&format!("c09 {}", sm(&h)), &o, true, &["more-than-65536-columns", if o.starts_with("ok") { "result-ok" } else { "result-other" }]);
+        // the same shape with rows that SHARE low columns (so that elimination below a pivot really happens) and carry ones beyond column
+        // 65535 that the elimination must cancel or create; every other case has two equal rows or a row that is the sum of two others
+        // (rank-deficient only if the high columns are handled as columns >= 65536)
+        if r < 2 || n <= 65540 { continue; }
+        let mut h = SparseMatrix::new(r, n);
+        let shared = [rng.below(200), 200 + rng.below(200)];
+        for i in 0..r {
+            h.insert(i, shared[0]);
+            if rng.chance(1, 2) { h.insert(i, shared[1]); }
+            h.insert(i, 65536 + rng.below(n - 65536));
+            if rng.chance(1, 2) { h.insert(i, 65536 + rng.below(n - 65536)); }
+        }
+        if rng.chance(1, 2) {
+            // make the last row the sum of the others (r = 2: equal rows)
+            h.clear_row(r - 1);
+            for i in 0..r - 1 { let cols: Vec<usize> = h.iter_row(i).copied().collect(); for c in cols { h.toggle(r - 1, c); } }
         }
         let o = sys_res(&h);
         ctx.emit(&format!("c09 {}", sm(&h)), &o, true, &["more-than-65536-columns", if o.starts_with("ok") { "result-ok" } else { "result-other" }]);
